@@ -64,7 +64,13 @@ def _gsite_engine(pid, tier, seed, known):
 
 G_TRUST = ["Engine G uses no path conditions: a call site is counted only if the allocation expression alone implies the kernel's extent; the other sites are listed as g_undecided_sites in the evidence and are not covered",
            "Engine G reads the call sites from the source text (kernel::NAME<...>(kernel::lib::cpu, ...) with `x.data()` arguments of locals declared `Index..(EXPR)` in the same function); other argument forms are not covered"]
-PLAN["C12"]["extra"] = [_builders_engine, _forth_engine, _gsite_engine, _combinations_engine]
+def _gcall_engine(pid, tier, seed, known):
+    from . import gcall
+    return gcall.engine(pid, tier, seed, known)
+
+
+G_TRUST.append("Engine G (AST based, gcall.py): libawkward caller methods are executed symbolically with path conditions; objects the translator does not model are opaque (fresh values), class invariants are those listed in gcall.py (taken from the constructors' checks), preconditions of the virtual methods reduce_next/sort_next/argsort_next (outlength >= 0, negaxis >= 1) are assumed; only obligations that prove on the unchanged tree are counted (contracts/g_calls.json), the others are listed as g_call_undecided")
+PLAN["C12"]["extra"] = [_builders_engine, _forth_engine, _gsite_engine, _gcall_engine, _combinations_engine]
 PLAN["C12"]["trusted"] = KERNEL_TRUST + _builders_mod.TRUSTED + _forth_mod.TRUSTED + G_TRUST
 
 
